@@ -27,7 +27,7 @@ pub assume_specification[u32::next_power_of_two](x: u32) -> (r: u32)
         match r {
             Ok(h) => cb_inv(*final(self), h) && final(self).states@.len() == final(self).block_len && h.num_free_blocks == old(self).num_free_blocks
                 && (forall|i: int| 0 <= i < final(self).states@.len() ==> (#[trigger] final(self).states@[i]).base.is_none()
-                        && final(self).states@[i].check == 1 && final(self).states@[i].fail == 1),
+                        && final(self).states@[i].check == 1 && final(self).states@[i].fail == 1 && final(self).states@[i].output_pos.is_none()),
             Err(e) => e is AutomatonScale,
         }
 //@}
@@ -130,7 +130,7 @@ pub assume_specification[u32::next_power_of_two](x: u32) -> (r: u32)
                 &&& forall|j: int| h_hi(*old(helper)) <= j < h_hi(*final(helper)) ==> !h_used_index(*final(helper), j)
                 &&& forall|i: int| 0 <= i < old(self).states@.len() ==> (#[trigger] final(self).states@[i]) == old(self).states@[i]
                 &&& forall|i: int| old(self).states@.len() <= i < final(self).states@.len() ==> (#[trigger] final(self).states@[i]).base.is_none()
-                        && final(self).states@[i].check == 1 && final(self).states@[i].fail == 1
+                        && final(self).states@[i].check == 1 && final(self).states@[i].fail == 1 && final(self).states@[i].output_pos.is_none()
             },
             Err(e) => e is AutomatonScale,
         }
@@ -171,7 +171,7 @@ pub assume_specification[u32::next_power_of_two](x: u32) -> (r: u32)
     requires old(self).states@.len() == 0, old(self).num_free_blocks >= 1, nfa_tree(*nfa),
         old(self).mapper.alphabet_size <= 0x8000_0000,
         mapper_covers(*nfa, old(self).mapper.table@, old(self).mapper.alphabet_size)
-    ensures final(self).mapper == old(self).mapper,
+    ensures final(self).mapper == old(self).mapper, final(self).match_kind == old(self).match_kind,
       match r {
         Ok(_) => {
             &&& final(self).states@.len() > 0 && final(self).states@.len() as int % (final(self).block_len as int) == 0 && final(self).states@.len() <= u32::MAX
@@ -179,7 +179,7 @@ pub assume_specification[u32::next_power_of_two](x: u32) -> (r: u32)
             &&& forall|i: int| 0 <= i < final(self).states@.len() ==> ((#[trigger] final(self).states@[i]).base.is_some() ==> final(self).states@[i].base.unwrap()@ < final(self).states@.len())
             &&& forall|i: int| 0 <= i < final(self).states@.len() ==> (#[trigger] final(self).states@[i]).fail < final(self).states@.len()
             // stage B: the array encodes the NFA (edges present, no spurious edge, fail/output_pos copied)
-            &&& exists|idmap: Seq<u32>| cw_encodes(final(self).states@, final(self).mapper.table@, *nfa, idmap)
+            &&& exists|idmap: Seq<u32>| cw_built(final(self).states@, final(self).mapper.table@, *nfa, idmap)
         },
         Err(e) => e is AutomatonScale,
       }
@@ -213,7 +213,8 @@ pub assume_specification[u32::next_power_of_two](x: u32) -> (r: u32)
         state_id_map@.len() == n,
         forall|i: int| 0 <= i < n ==> (#[trigger] state_id_map@[i]) < self.states@.len(),
         state_id_map@[0] == 0, state_id_map@[1] == 1,
-        forall|x: int| 0 <= x < self.states@.len() ==> (#[trigger] self.states@[x]).fail == 1,
+        forall|x: int| 0 <= x < self.states@.len() ==> (#[trigger] self.states@[x]).fail == 1 && self.states@[x].output_pos.is_none(),
+        self.match_kind == old(self).match_kind,
         forall|k: int| 0 <= k < stack@.len() ==> (#[trigger] stack@[k]) < n && stack@[k] != 1 && state_id_map@[stack@[k] as int] != 1,
         forall|s: int, c: char| done.contains(s) && #[trigger] nfa_edges(*nfa, s).contains_key(c) ==> 0 <= s < n && state_id_map@[nfa_edges(*nfa, s)[c] as int] != 1,
         forall|s: int| 0 <= s < n && s != 1 && #[trigger] state_id_map@[s] != 1 ==> done.contains(s) || stack@.contains(s as u32),
@@ -342,7 +343,8 @@ pub assume_specification[u32::next_power_of_two](x: u32) -> (r: u32)
         state_id_map@.len() == n,
         forall|i: int| 0 <= i < n ==> (#[trigger] state_id_map@[i]) < self.states@.len(),
         state_id_map@[0] == 0, state_id_map@[1] == 1,
-        forall|x: int| 0 <= x < self.states@.len() ==> (#[trigger] self.states@[x]).fail == 1,
+        forall|x: int| 0 <= x < self.states@.len() ==> (#[trigger] self.states@[x]).fail == 1 && self.states@[x].output_pos.is_none(),
+        self.match_kind == old(self).match_kind,
         base@ < self.states@.len(), state_idx < self.states@.len(), state_idx == state_id_map@[sid], state_idx != 1,
         forall|j: int| it3.index@ <= j < s1.len() ==> h_active(helper, (base@ ^ (#[trigger] s1[j]).0) as int) && !h_used_index(helper, (base@ ^ s1[j].0) as int),
         forall|j: int| 0 <= j < it3.index@ ==> state_id_map@[(#[trigger] s1[j]).1 as int] != 1,
@@ -447,6 +449,8 @@ pub assume_specification[u32::next_power_of_two](x: u32) -> (r: u32)
         forall|y: int| 0 <= y < stl.len() ==> (#[trigger] self.states@[y]).base == stl[y].base && self.states@[y].check == stl[y].check,
         forall|s: int| 0 <= s < i && s != 1 ==> (#[trigger] self.states@[idm[s] as int]).fail == (if nfa.states@[s].fail == 1 { 1u32 } else { idm[nfa.states@[s].fail as int] })
             && self.states@[idm[s] as int].output_pos == nfa.states@[s].output_pos,
+        forall|x: int| 0 <= x < self.states@.len() ==> (#[trigger] self.states@[x]).output_pos.is_none() || slot_used_cw(*nfa, idm, x),
+        self.match_kind == old(self).match_kind,
         cb_inv(*self, helper), nfa_tree(*nfa), n == nfa.states@.len(), state_id_map@.len() == n,
         forall|i: int| 0 <= i < n ==> (#[trigger] state_id_map@[i]) < self.states@.len(),
         forall|t: int| 0 <= t < n && t != 1 ==> #[trigger] state_id_map@[t] != 1,
@@ -463,7 +467,7 @@ pub assume_specification[u32::next_power_of_two](x: u32) -> (r: u32)
 //@before 1 Ok(()){
     proof {
         lemma_window(helper);
-        assert(cw_encodes(self.states@, self.mapper.table@, *nfa, idm));
+        assert(cw_built(self.states@, self.mapper.table@, *nfa, idm));
     }
 //@}
 //@endimpl
